@@ -19,7 +19,7 @@ ASSUMPTIONS = ["line-granular serialisation; threading primitives replaced by in
                "another action, or before the loop thread existed (DESIGN.md §4 rule 4)",
                "the abstract run-loop model over all interleavings mentioned by the quantifier is not claimed (out of family)"]
 REQUIRED = {"decided_runs": {"quick": 600, "thorough": 6000}, "preemptive_switches": {"quick": 500, "thorough": 5000},
-            "dfs_complete_scenarios": {"quick": 3, "thorough": 4}, "actions_started": {"quick": 1500, "thorough": 15000},
+            "dfs_complete_scenarios": {"quick": 4, "thorough": 5}, "actions_started": {"quick": 1500, "thorough": 15000},
             "cancels_decided": {"quick": 100, "thorough": 1000}, "post_dispose_schedules": {"quick": 40, "thorough": 400},
             "clock_advances": {"quick": 200, "thorough": 2000}}
 UNIT_TIMEOUT = {"quick": 240, "thorough": 3000}
@@ -33,6 +33,8 @@ HAND = [
     {"exit": False, "progs": [[["imm", 0], ["dispose"]], [["imm", 1]]], "nested": {}},
     {"exit": True, "progs": [[["imm", 0]], [["sleep", 1.0], ["imm", 1]]], "nested": {}},
     {"exit": False, "progs": [[["rel", 0, 0.3], ["imm", 1]], [["rel", 2, 0.1]]], "nested": {"1": [["imm", 3]]}},
+    {"exit": True, "progs": [[["imm", 0]], [["imm", 1]]], "nested": {}},
+    {"exit": True, "progs": [[["imm", 0]], [["rel", 1, 0.1]]], "nested": {}},
 ]
 
 
@@ -137,6 +139,9 @@ def scenario(c: Any, P: dict) -> dict:
         t.join()
     c.wait_quiescent()
     c.log("quiescent")
+    # judged here, at the first quiescence: the restart probe below would otherwise start a new loop thread that
+    # also picks up (and so hides) an item stranded by the exit_if_empty hand-over
+    viol.extend(judge(c.events, P))
     loop_threads = [r for r in c.by_name.values() if r.name.startswith("T")]
     disposed = any(e[3] == "dispose_ret" for e in c.events)
     if P["exit"] and not disposed:
@@ -156,7 +161,6 @@ def scenario(c: Any, P: dict) -> dict:
             viol.append(("C31:exit_if_empty:no-restart", {}))
         elif len(now_threads) <= before and before > 0:
             viol.append(("C31:exit_if_empty:restart-without-new-thread", {}))
-    viol.extend(judge(c.events, P))
     if not disposed:
         s.dispose()
         c.wait_quiescent()
